@@ -348,7 +348,7 @@ def P_jc(t, i, j):
     return (nf.const(1) / 4 if isinstance(t, nf.RF) else 0.25) - e / 4
 
 
-def scn_model(newick, taxa_names, seqs, dates, tree_kind, clock, site, K, tip_states, use_amb, batch, subst_kind="stub", rescale=False, clock_batch=None):
+def scn_model(newick, taxa_names, seqs, dates, tree_kind, clock, site, K, tip_states, use_amb, batch, subst_kind="stub", rescale=False, clock_batch=None, aln_taxa_shift=0):
     """tree_kind: 'unrooted' | 'time'; clock: None|'strict'|'simple'; site: 'constant'|'weibull'|'invariant'"""
     batch = tuple(batch)
     cbatch = batch if clock_batch is None else tuple(clock_batch)   # the clock rates may carry their own sample shape
@@ -368,7 +368,13 @@ def scn_model(newick, taxa_names, seqs, dates, tree_kind, clock, site, K, tip_st
         taxa = Taxa("taxa", [Taxon(n, {"date": d}) for n, d in zip(taxa_names, dates)])
         # sequences supplied in a different order than the taxa on purpose
         order = list(range(T))[::-1]
-        alignment = Alignment("aln", [Sequence(taxa_names[i], seqs[i]) for i in order], taxa, NucleotideDataType(None))
+        aln_taxa = taxa
+        if aln_taxa_shift:
+            # the alignment holds a Taxa object of its own listing the same taxa ROTATED by aln_taxa_shift positions (a permutation that is
+            # not its own inverse for T >= 3): tip data are still matched to the leaves by name
+            rot = [(i + aln_taxa_shift) % T for i in range(T)]
+            aln_taxa = Taxa("taxa.alignment", [Taxon(taxa_names[i], {"date": dates[i]}) for i in rot])
+        alignment = Alignment("aln", [Sequence(taxa_names[i], seqs[i]) for i in order], aln_taxa, NucleotideDataType(None))
         sp = SitePattern("sp", alignment)
         tree = parse_tree(taxa, {"newick": newick})
         # oracle view of the same inputs (own parser, documented index convention)
@@ -1191,6 +1197,11 @@ def obligations(tier, seed):
         add("C01.model.JC69[((A,B),C);,unrooted,site=%s,K=%d]" % (site_, K_), "scn_model",
             ("((A,B),C);", ["C", "A", "B"], ["ACR", "CGN", "GT-"], [0.0, 0.0, 0.0], "unrooted", None, site_, K_, False, True, (), "JC69"),
             "TreeLikelihoodModel pipeline ≡ marginal sum over the categories of a site model with invariant class and relative rate")
+    for shift_ in (1, 2):
+        for ts_ in (False, True):
+            add("C01.model.JC69[((A,B),(C,D));,unrooted,alignment taxa rotated by %d,tipstates=%s]" % (shift_, ts_), "scn_model",
+                ("((A,B),(C,D));", ["A", "B", "C", "D"], ["ACR", "CGN", "GT-", "TAC"], [0.0] * 4, "unrooted", None, "constant", 1, ts_, True, (), "JC69", False, None, shift_),
+                "TreeLikelihoodModel pipeline ≡ marginal sum when the alignment carries a Taxa object of its own in another order")
     add("C01.model.JC69[((A,B),C);,unrooted,weibull]", "scn_model",
         ("((A,B),C);", ["C", "A", "B"], ["ACR", "CGN", "GT-"], [0.0, 0.0, 0.0], "unrooted", None, "weibull", 2, False, True, (), "JC69"),
         "TreeLikelihoodModel pipeline with the real JC69 model ≡ marginal sum")
